@@ -4,6 +4,7 @@
   `handle_network_event_connection_closed` and `apply_session_present_to_connection` (protocol.rs).
 -/
 import GV.Proofs.EngineWF
+import GV.Proofs.EngineClose
 namespace GV.Props.C04
 open GV
 
@@ -131,5 +132,16 @@ theorem pubrel_belongs_to_a_delivery_in_progress (cfg : Config) (evs : List Even
   · exact .inl a
   · exact .inr a
   · cases a
+
+/-- **Only a QoS 2 publish ever holds a PUBREL**, after any history; and while a PUBLISH (not yet its PUBREL) is the
+    packet being written, its operation is not yet in the pending-publish table - so an acknowledgement arriving then
+    cannot be taken for it. -/
+theorem pubrel_only_for_qos2 (cfg : Config) (evs : List Event) (id : Nat) (o : Op)
+    (h : (runEvents (Engine.new cfg) evs).1.ops.lookup id = some o) :
+    (o.pubrel.isSome = true → publishQos o.packet = some 2) ∧
+    ((runEvents (Engine.new cfg) evs).1.current = some id → id ∈ vals (runEvents (Engine.new cfg) evs).1.pendingPub →
+      o.pubrel.isSome = true) :=
+  let x := (inv2_after cfg evs).2
+  ⟨x.x8 id o h, fun hc hm => x.x1c rfl id hc hm o h⟩
 
 end GV.Props.C04
